@@ -768,7 +768,11 @@ def build_hist_case(data):
     locked = set()
     steps = []
 
-    def summary():
+    # a group may enter the summary state later than the first evaluation (a group that starts reporting at a later
+    # report step): from then on it belongs to every group set
+    gstart = {g: (0 if (gi == 0 or src.int(0, 2)) else src.int(1, nsteps - 1)) for gi, g in enumerate(groups)}
+
+    def summary(step=0):
         # all vectors get new values every step, expanded deterministically from two drawn bytes
         base = src.int(0, 65535)
         cnt = [0]
@@ -779,7 +783,7 @@ def build_hist_case(data):
             return ((h >> 9) % 200 + 1) / 4.0
         return {"field": [[k, nxt()] for k in FVARS],
                 "wvars": [[v, [[w, nxt()] for w, _ in wells]] for v in WVARS],
-                "gvars": [[v, [[g, nxt()] for g in groups]] for v in GVARS]}
+                "gvars": [[v, [[g, nxt()] for g in groups if step >= gstart[g]]] for v in GVARS]}
 
     def define(q):
         tk = q[0]
@@ -864,7 +868,7 @@ def build_hist_case(data):
                         recs.append(["UPDATE", q, "ON"])
                 elif r[0] == "UPDATE":
                     status[q] = r[2]
-        steps.append({"udq": recs, "summary": summary()})
+        steps.append({"udq": recs, "summary": summary(s)})
     return {"part": "B", "wells": [list(w) for w in wells], "quantities": seen, "steps": steps}
 
 
@@ -1169,8 +1173,17 @@ class C17(Check):
         every step while its update status is ON, exactly once after UPDATE NEXT, never while OFF (its value
         stays); a new DEFINE starts ON; quantities are evaluated in the order of their first appearance."""
         wells = [w for w, _ in case["wells"]]
-        groups = sorted({g for _, g in case["wells"]})
-        uni = {"W": wells, "G": groups, "F": [""]}
+
+        class _Uni(dict):
+            """element names of a quantity kind; G = the groups the summary state knows AT THIS MOMENT"""
+            def __getitem__(self_, k):
+                if k == "G":
+                    gs = set()
+                    for d in cur["gvars"].values():
+                        gs.update(d.keys())
+                    return sorted(gs)
+                return dict.__getitem__(self_, k)
+        uni = _Uni({"W": wells, "F": [""]})
         mode, status, defs, order = {}, {}, {}, []
         vals = {}
         cur = {"field": {}, "wvars": {}, "gvars": {}}
@@ -1234,6 +1247,10 @@ class C17(Check):
                     if status[q] == "NEXT":
                         status[q] = "OFF"
                         spent.add(q)
+            # a group that entered the summary state at this step has no value in quantities that were not evaluated now
+            for q, t in vals.items():
+                for e in uni[q[0]]:
+                    t.setdefault(e, None)
             out.append({q: dict(t) for q, t in vals.items()})
         return out, hazards
 
